@@ -141,7 +141,7 @@ theorem queueFin_l {A : Seq → Prop} (s u : Tcb) (hst : s.state ≠ .SynSent) (
       by simp only [(enqueueBuilt_frame _ _).2.2.1]⟩
     have hn : NewHdr (s.enqueueBuilt s.finHdr.built) s.finHdr.built :=
       ⟨rfl, by rw [(enqueueBuilt_frame _ _).2.1]; rfl,
-        fun _ => ⟨by rw [(enqueueBuilt_frame _ _).2.1]; rfl, by rw [state_enqueueBuilt]; exact hst⟩⟩
+        fun _ => ⟨by rw [(enqueueBuilt_frame _ _).2.1]; rfl, by rw [state_enqueueBuilt]; exact hst⟩, Or.inl rfl⟩
     have q0 : QStep (NewHdr (s.enqueueBuilt s.finHdr.built)) A s (s.enqueueBuilt s.finHdr.built) :=
       qstep_enqueue _ _ hn
     exact q0.newHdr_congr rfl id rfl rfl rfl
